@@ -60,7 +60,7 @@ func (tc *typechecker) templateFileToPackage(tree *ast.Tree) {
 			nodes = append(nodes, n.Nodes...)
 		case *ast.Using:
 			iteaName := tc.compilation.generateIteaName()
-			iteaDeclaration, statement := tc.explodeUsingStatement(n, iteaName)
+			iteaDeclaration, statement := tc.explodeUsingStatement(n, iteaName, tree.Path)
 			nodes = append(nodes, iteaDeclaration, statement)
 			if iteaToDeclarations == nil {
 				iteaToDeclarations = map[string][]*ast.Identifier{}
@@ -753,7 +753,7 @@ nodesLoop:
 
 			iteaName := tc.compilation.generateIteaName()
 
-			iteaDeclaration, statement := tc.explodeUsingStatement(node, iteaName)
+			iteaDeclaration, statement := tc.explodeUsingStatement(node, iteaName, tc.path)
 
 			// Type check the dummy assignment of the 'using' statement, along
 			// with its content, and transform the tree.
@@ -1373,8 +1373,9 @@ func (tc *typechecker) checkTypeDeclaration(node *ast.TypeDeclaration) (string, 
 	}
 }
 
-// explodeUsingStatement explodes an 'using' statement.
-func (tc *typechecker) explodeUsingStatement(using *ast.Using, iteaIdent string) (*ast.Var, ast.Node) {
+// explodeUsingStatement explodes an 'using' statement of the file with the
+// given path.
+func (tc *typechecker) explodeUsingStatement(using *ast.Using, iteaIdent, path string) (*ast.Var, ast.Node) {
 
 	// Make the type explicit, if necessary.
 	if using.Type == nil {
@@ -1410,6 +1411,7 @@ func (tc *typechecker) explodeUsingStatement(using *ast.Using, iteaIdent string)
 	)
 	uc := usingCheck{
 		itea: iteaDeclaration,
+		path: path,
 		pos:  using.Position,
 		typ:  using.Type,
 	}
